@@ -8,7 +8,7 @@ from pvm.gen import graphs as G
 
 KINDS = ["Network", "Network[directed]", "GeoNetwork", "InteractingNetworks",
          "ResNetwork", "RecurrenceNetwork", "VisibilityGraph",
-         "ClimateNetwork"]
+         "ClimateNetwork", "InterSystemRecurrenceNetwork"]
 
 META = dict(
     shards={"quick": 16, "thorough": 16},
@@ -475,6 +475,38 @@ def build_case(ctx, kind, r, small):
         return make, n, {"x": x, "rule": rule, "metric": metric,
                          "key": x.tobytes().hex()[:40] + metric + repr(rule),
                          "have_attr": False, "connected": False}
+    if kind == "InterSystemRecurrenceNetwork":
+        from pyunicorn.timeseries import InterSystemRecurrenceNetwork as IS
+        # two systems with different (sometimes equal) numbers of states;
+        # renumbering = reordering the samples within each system
+        n1 = int(r.integers(3, (6 if small else 10)))
+        n2 = int(r.integers(3, (6 if small else 10)))
+        if r.random() < 0.3:
+            n2 = n1          # equal lengths: the cross matrix is square
+        elif n1 == n2:
+            n2 += 1
+        q = float(r.choice([8, 2]))
+        x = np.round(r.normal(size=(n1, 2)) * q) / q
+        y = np.round(r.normal(size=(n2, 2)) * q) / q
+        if r.random() < 0.5:
+            rule = {"threshold": tuple(float(v) + 1 / 64 for v in
+                                       r.choice([0.6, 0.9, 1.3], 3))}
+        else:
+            rule = {"recurrence_rate": tuple(float(v) for v in
+                                             r.choice([0.2, 0.4, 0.6], 3))}
+        metric = str(r.choice(["supremum", "euclidean", "manhattan"]))
+        n = n1 + n2
+
+        def make(p):
+            p1 = np.asarray(p[:n1])
+            p2 = np.asarray(p[n1:]) - n1
+            return IS(x[p1].copy(), y[p2].copy(), metric=metric,
+                      silence_level=3, **rule)
+        return make, n, {"x": x, "y": y, "rule": rule, "metric": metric,
+                         "key": (x.tobytes().hex()[:30], y.tobytes().hex()[:30],
+                                 metric, repr(rule)),
+                         "have_attr": False, "connected": False,
+                         "blocks": (n1, n2)}
     if kind == "VisibilityGraph":
         from pyunicorn.timeseries import VisibilityGraph
         n = int(r.integers(4, (7 if small else 14)))
@@ -499,8 +531,64 @@ def build_case(ctx, kind, r, small):
     raise ValueError(kind)
 
 
+def large_case(ctx, n, j):
+    """A few hundred nodes (beyond one block of 128 / 256 rows of tiled
+    implementations): a handful of measures incl. the dictionary returned by
+    distance_based_measures, original vs. renumbered network."""
+    from pyunicorn.core import Network
+    cid = f"large:{n}"
+    r = ctx.rng("large", n)
+    A = G.random_connected(r, n, n, extra_p=0.0)
+    extra = np.triu(r.random((n, n)) < 3.0 / n, 1)
+    A = ((A + extra + extra.T) > 0).astype(np.int8)
+    np.fill_diagonal(A, 0)
+    w = G.pos_weights(r, n)
+    p = r.permutation(n)
+    with ctx.quiet():
+        o0 = Network(adjacency=A, node_weights=w, silence_level=3)
+        o1 = Network(adjacency=A[np.ix_(p, p)], node_weights=w[p],
+                     silence_level=3)
+    case = {"kind": "Network", "N": n, "links": int(A.sum() // 2),
+            "generator": cid}
+    ctx.count("large_networks")
+    with warnings.catch_warnings():
+        warnings.simplefilter("ignore")
+        for m in ("distance_based_measures", "degree", "closeness",
+                  "local_clustering", "betweenness", "nsi_degree",
+                  "max_neighbors_degree", "nsi_max_neighbors_degree",
+                  "average_neighbors_degree", "nsi_closeness",
+                  "nsi_local_clustering", "average_path_length",
+                  "nsi_average_path_length", "transitivity"):
+            ok0, v0 = ctx.call(getattr(o0, m))
+            ok1, v1 = ctx.call(getattr(o1, m))
+            ctx.evals(2)
+            if not (ok0 and ok1):
+                if ok0 != ok1:
+                    ctx.violation(f"Network:{m}():raises-on-one-labelling:"
+                                  "large", {**case, "exc":
+                                            repr(v1 if ok0 else v0)}, cid)
+                continue
+            items = [(m, v0, v1)]
+            if isinstance(v0, dict) and isinstance(v1, dict):
+                items = [(f"{m}[{k}]", v0[k], v1.get(k)) for k in sorted(v0)]
+            for lab, a, b in items:
+                comp, good, varied = relate(lab, a, b, p, n,
+                                            float(np.sum(w)) ** 2
+                                            if "betweenness" in lab else 0.0)
+                ctx.count("kind:Network")
+                if varied:
+                    ctx.nontrivial(("large", lab, n))
+                if comp and not good:
+                    ctx.violation(f"Network:{lab}:not-equivariant:large",
+                                  {**case, "orig": a, "relabelled": b}, cid)
+
+
 def run(ctx):
     all_n = 5 if ctx.thorough else 4
+    for j, n in enumerate((300, 517, 257) if ctx.thorough else (300,)):
+        if ctx.mine(j) and ctx.want(f"large:{n}"):
+            with ctx.guard(600):
+                large_case(ctx, n, j)
     k = 0
     cap = 30000 if ctx.thorough else 1500
     # exhaustive-permutation block first (time independent)
@@ -522,7 +610,11 @@ def run(ctx):
         with ctx.quiet():
             o0 = make(np.arange(n))
         ctx.count("all_perms_graphs")
-        for p in perms_for(ctx, r, n, True):
+        allp = perms_for(ctx, r, n, True)
+        if info.get("blocks"):
+            b1 = info["blocks"][0]
+            allp = [q_ for q_ in allp if set(q_[:b1]) == set(range(b1))]
+        for p in allp:
             with ctx.quiet():
                 o1 = make(p)
             if info.get("mirror") and type(o1) is type(o0):
@@ -556,6 +648,13 @@ def run(ctx):
             pl = perms_for(ctx, r, n, False)
             if info.get("mirror") and n > 1:
                 pl.append(np.arange(n)[::-1].copy())
+            if info.get("blocks"):
+                b1, b2 = info["blocks"]
+                pl = [np.concatenate([r.permutation(b1),
+                                      b1 + r.permutation(b2)])
+                      for _ in range(3)]
+                pl = [q_ for q_ in pl
+                      if not np.array_equal(q_, np.arange(n))]
             for p in pl:
                 with ctx.quiet():
                     o1 = make(p)
